@@ -156,7 +156,9 @@ def check(tier):
         rep.violation("translator", {"theorem": "generated tables cannot be regenerated", "detail": str(e)}, no_input=True)
         return rep.finish()
     ok, log = C.coq_make(["theories/Props/C13.vo"])
-    for t in ["sequential_reading_is_exact", "reading_example", "retract_at_a_half_boundary_refuted", "result_depends_only_on_the_token_sequence"]:
+    for t in ["sequential_reading_is_exact", "reading_example", "retract_at_a_half_boundary_refuted", "result_depends_only_on_the_token_sequence",
+              "layout_character_in_front", "layout_character_after_a_token", "tokens_are_not_extended_by_layout",
+              "leading_layout_does_not_change_the_result"]:
         rep.obligation("Props/C13.v: " + t, ok)
     rep.cov["print_assumptions"] = "Closed under the global context x%d" % log.count("Closed under the global context") if ok else "n/a"
     rep.cov["partial"] = ["retract_at_a_half_boundary_refuted (known finding D14, dependency): the refinement of the reader under "
